@@ -126,6 +126,12 @@ def run(tier, seed, escalate=False):
                 if not ok:
                     key = "C17:failed-save-left-loadable-partial-file:%s:%s" % (pos, "prev" if had_prev else "noprev")
                     fails.append({"key": key, "clause": key, "ops": [c]})
+            elif "none" not in c["label"] and not (had_prev and not c.get("overwrite")):
+                # an unstorable value was handed over and the call did NOT raise: whatever now loads cannot hold it, i.e. a file
+                # that loads successfully with part of the attributes / history missing
+                if icls != "absent" and i["loads"]:
+                    key = "C17:unstorable-value-silently-dropped:" + pos
+                    fails.append({"key": key, "clause": key, "ops": [c]})
             if i.get("leftover_tmp"):
                 key = "C17:temporary-file-left-behind:" + pos
                 fails.append({"key": key, "clause": key, "ops": [c]})
